@@ -159,6 +159,59 @@ def h_history(threshold: int, qs: List[bool], summaries: List[str], second_kind:
     return run(body_history, threshold, qs, summaries, second_kind, writes, kindf, text)
 
 
+# ------------------------------------------------------------------ histories that return to earlier contents
+HM_STEPS = ["Q", "Q2", "WA", "WB", "D", "MA", "MB"]
+
+
+def body_history_menu(s1, s2, threshold):
+    """Histories in which a member RETURNS to earlier contents, or the same bytes show up under another name - the
+    etag, a content hash in every store, is then one the index has seen before: four steps from a menu (query with
+    filter 1 / filter 2, write contents A or B to a.ics, delete it, write A or B to m.ics), after warming the index;
+    two steps chosen by the solver, two looped inside.  After every step both filters answer what evaluating them
+    on the current contents gives, each match with its own file and etag."""
+    from xv.core import picks, untraced
+    s1, s2, threshold = picks((s1, s2, threshold), (len(HM_STEPS), len(HM_STEPS), 3))
+    with untraced():
+        fa, _ = _calq.calendar([_calq.component(0, True, "x", True, "en", True, 5, False, False, 0)])
+        fb, _ = _calq.calendar([_calq.component(0, True, "y", True, "en", True, 50, False, False, 0)])
+        contents = {"A": ("text/calendar", "eA", fa), "B": ("text/calendar", "eB", fb)}
+        filters = [_calq.build_api("prop-text", 0, "x", 1, False, 0, 10), _calq.build_api("comp-range", 0, "", 1, False, 0, 10)]
+        n = len(HM_STEPS)
+        warmed = False
+        for rest in range(n * n):
+            script = [s1, s2, rest % n, rest // n]
+            store = _MemStore(threshold)
+            store.members["a.ics"] = contents["A"]
+            store.members["z.ics"] = contents["B"]
+            for _ in range(threshold + 2):
+                list(store.iter_with_filter(filters[0]))
+            for st in script:
+                op = HM_STEPS[st]
+                if op == "WA" or op == "WB":
+                    store.members["a.ics"] = contents[op[1]]
+                elif op == "D":
+                    store.members.pop("a.ics", None)
+                elif op == "MA" or op == "MB":
+                    store.members["m.ics"] = contents[op[1]]
+                for flt in (filters if op in ("Q", "Q2") else filters[:1]) if op != "Q2" else filters[1:]:
+                    res = list(store.iter_with_filter(flt))
+                    got = sorted(name for (name, f, etag) in res)
+                    want = sorted(name for (name, f, etag) in store._iter_with_filter_naive(flt))
+                    if got != want or not all(f is store.members[nm][2] and et == store.members[nm][1] for (nm, f, et) in res):
+                        ctx.LAST_EXC = "threshold %d script %r: %r != %r" % (threshold, [HM_STEPS[x] for x in script], got, want)
+                        return (False, "differs")
+                warmed = warmed or bool(store.index.available_keys())
+        return (True, "indexed" if warmed else "naive-only")
+
+
+def h_history_menu(s1: int, s2: int, threshold: int) -> bool:
+    """
+    pre: 0 <= s1 < len(HM_STEPS) and 0 <= s2 < len(HM_STEPS) and 0 <= threshold < 3
+    post: _
+    """
+    return run(body_history_menu, s1, s2, threshold)
+
+
 # ------------------------------------------------------------------ index == naive on REAL parsed objects
 from xv.harness import C11 as _C11  # noqa: E402
 
@@ -227,6 +280,15 @@ HARNESSES = [
             encodes=["xandikos.icalendar.CalendarFilter.check_from_indexes", "xandikos.icalendar.ICalendarFile._get_index",
                      "xandikos.icalendar.ComponentTimeRangeMatcher.match_indexes", "xandikos.icalendar.PropertyTimeRangeMatcher.match_indexes",
                      "xandikos.icalendar.TextMatcher.match_indexes", "xandikos.store.File.get_indexes"]),
+    Harness("history_menu", h_history_menu, body_history_menu, classes=["indexed"], budget={"quick": 120, "thorough": 240},
+            per_path_timeout={"quick": 60, "thorough": 60},
+            describe="four-step histories over a menu of 7 steps (two filters, writes of two contents to one name, delete, the same "
+                     "contents under another name) after warming the index, thresholds 0..2, etag = function of the contents (as in "
+                     "every store): a member that returns to earlier contents, or earlier bytes under a new name, is answered "
+                     "like the naive evaluation; exhaustive over the menu (2 steps by the solver, 2 looped inside; the filter is evaluated after every step)",
+            encodes=["xandikos.store.Store.iter_with_filter", "xandikos.store.Store._iter_with_filter_indexes",
+                     "xandikos.store.index.MemoryIndex.get_values", "xandikos.store.index.MemoryIndex.add_values",
+                     "xandikos.store.index.MemoryIndex.iter_values", "xandikos.store.index.AutoIndexManager.find_present_keys"]),
     Harness("history", h_history, body_history, classes=[("indexed", _PAIRS_Q[0]), ("naive-only", _PAIRS_Q[1])],
             parts={"quick": _PAIRS_Q, "thorough": _PAIRS_T}, bounds=_B, budget={"quick": 90, "thorough": 600},
             describe="symbolic sequence of queries (two filters, symbolic threshold) and writes on a store: every result "
